@@ -228,6 +228,12 @@ func init() {
 		fr.p.nowMax = termOf(args[0])
 		return nil
 	}
+	// vSetClock: the harness owns the clock; every reading returns this value
+	// (nanoseconds, monotonic) until it is set again.
+	harnessAPI["vSetClock"] = func(fr *frame, fn *ssa.Function, args []Value) Value {
+		fr.p.clockFixed = termOf(args[0])
+		return nil
+	}
 	harnessAPI["vObserve"] = func(fr *frame, fn *ssa.Function, args []Value) Value {
 		s := args[0].(StrV).String()
 		if len(args) > 1 {
